@@ -110,7 +110,7 @@ def main():
         import c03_dispatch
         js = c03_dispatch.jobs(thorough)
         vlib.run_jobs(js, nproc=4); rep.add_jobs(js)
-        rep.functions.append(c03_dispatch.INFO)
+        rep.functions.append(c03_dispatch.INFO); rep.functions.append(c03_dispatch.INFO2)
     except ImportError:
         rep.assume("dispatch soundness of get_evaluator: NOT checked in this run")
     try:
